@@ -1342,6 +1342,25 @@ func runC07Delayed(c *Ctx) {
 			delete(copyOf, o)
 		}
 	}
+	// copies of copies (c := previous), each defined once
+	for changed := true; changed; {
+		changed = false
+		ast.Inspect(lit.Body, func(n ast.Node) bool {
+			as, ok := n.(*ast.AssignStmt)
+			if !ok || len(as.Lhs) != len(as.Rhs) {
+				return true
+			}
+			for i, l := range as.Lhs {
+				lid, okL := unparen(l).(*ast.Ident)
+				rid, okR := unparen(as.Rhs[i]).(*ast.Ident)
+				if okL && okR && copyOf[info.ObjectOf(rid)] && !copyOf[info.ObjectOf(lid)] && ndef[info.ObjectOf(lid)] == 1 {
+					copyOf[info.ObjectOf(lid)] = true
+					changed = true
+				}
+			}
+			return true
+		})
+	}
 	ncall := 0
 	containsCall := func(n ast.Node) bool {
 		hit := false
@@ -1373,7 +1392,27 @@ func runC07Delayed(c *Ctx) {
 		})
 		return hit
 	}
-	from := ast.Node(lit.Body.List[0])
+	// the first simple statement of the goroutine (inlined bodies are wrapped in blocks and loops)
+	var first ast.Stmt = lit.Body.List[0]
+	for k := 0; k < 8; k++ {
+		switch x := first.(type) {
+		case *ast.BlockStmt:
+			if len(x.List) > 0 {
+				first = x.List[0]
+				continue
+			}
+		case *ast.LabeledStmt:
+			first = x.Stmt
+			continue
+		case *ast.ForStmt:
+			if x.Init == nil && x.Cond == nil && x.Post == nil && len(x.Body.List) > 0 {
+				first = x.Body.List[0]
+				continue
+			}
+		}
+		break
+	}
+	from := ast.Node(first)
 	pos, found := ff.PathSearchPSX(from, 0, func(n ast.Node, _ *State, flag int) (int, bool) {
 		if containsCall(n) {
 			return flag, true
@@ -1440,6 +1479,20 @@ func runC07EmptyRequest(c *Ctx) {
 				}
 				if other.K == 'v' && len(params) > 0 && (other.Obj == params[0] || other.Obj.Pos() > ts.Pos()) && !isNilIdent(info, ret.Results[0]) == false {
 					absent = true
+				}
+			}
+		}
+		// `case nil:` of a type switch over the argument is the absent list too
+		if isNilIdent(info, ret.Results[0]) && !absent {
+			for cur := p.Parent(ts.File, ret); cur != nil; cur = p.Parent(ts.File, cur) {
+				if cc, isCC := cur.(*ast.CaseClause); isCC {
+					if _, isTS := p.Parent(ts.File, p.Parent(ts.File, cc)).(*ast.TypeSwitchStmt); isTS {
+						for _, x := range cc.List {
+							if isNilIdent(info, x) {
+								absent = true
+							}
+						}
+					}
 				}
 			}
 		}
